@@ -293,7 +293,14 @@ def run_e2e(case, acc, wd):
         return len(r.log) >= 5, classes
     if kind == 'blackbox-run':
         # the executable itself: status 0 exactly when minimisation ran to completion
-        r = e2e.run_ddsmt(wd, case['text'], case['spec'], case['opts'], mode='blackbox', wall_limit=90)
+        # two runs in three with a cross-check command that accepts everything; its command line
+        # (one argument, split at white space) may hold several blanks, tabs and quote characters
+        import zlib
+        cc = None
+        if zlib.crc32(case['text'].encode('utf-8', 'replace')) % 3:
+            cc = dict(pred=['true'], T=[0, 'ok\n', ''], F=[0, 'ok\n', ''], noise=None, delay=None, fault=None, directive=False)
+            classes.append('with-cross-check')
+        r = e2e.run_ddsmt(wd, case['text'], case['spec'], case['opts'], mode='blackbox', wall_limit=90, spec_cc=cc)
         classes.append(f'strategy-{case["opts"]["strategy"]}')
         if r.timed_out:
             acc.skip('e2e wall limit (cycling run, see C03)')
